@@ -193,21 +193,16 @@ def r3(ctx):
     loops = [x for x in walk(fn["body"], into_closures=False) if x.get("k") == "for" and any(cal == "network::Network::_forward" for _, cal in calls(x["body"]))]
     lp = loops[0]
     ih = pat_binds(lp["pat"])[0][1]
-    skip_ifs = [s for s in top_stmts_of(lp["body"]) if s.get("k") == "if" and any(
-        x.get("k") == "mcall" and hm(x["callee"], "contains_key") and _self_field(x["recv"], "connect") for x in walk(s["c"]))]
+    skip_ifs = [s for s in top_stmts_of(lp["body"]) if map_guard(s, "connect") is not None]
     if len(skip_ifs) != 1:
-        raise Unestablished("expected one `if self.connect.contains_key(..)` block in the layer loop, found %d" % len(skip_ifs), c.loc(fn, lp))
+        raise Unestablished("expected one skip block guarded by a lookup in self.connect in the layer loop, found %d" % len(skip_ifs), c.loc(fn, lp))
     sk = skip_ifs[0]
-    ck = [x for x in walk(sk["c"]) if x.get("k") == "mcall" and hm(x["callee"], "contains_key")][0]
-    ctx.check("R16.3", "guard-key-is-layer-index", e4.local_hid(ck["args"][0]) == ih, "guard-key-not-layer-index", c.loc(fn, ck),
-              "contains_key(&i) with i the layer index")
-    # source tensor: activated[self.connect[&i]]
+    mg = map_guard(sk, "connect")
+    ctx.check("R16.3", "guard-key-is-layer-index", e4.local_hid(mg["key"]) == ih, "guard-key-not-layer-index", c.loc(fn, sk),
+              "the skip block is entered iff self.connect has an entry for the layer index i")
+    # source tensor: activated[<value stored under i>]
     src = [x for x in walk(sk["th"]) if x.get("k") == "index" and strip(x["b"]).get("k") == "local" and strip(x["b"])["name"] == "activated"]
-    ok = False
-    for x in src:
-        i = strip(x["i"])
-        if i.get("k") == "index" and _self_field(i["b"], "connect") and e4.local_hid(i["i"]) == ih:
-            ok = True
+    ok = any(is_lookup(x["i"], "connect", ih, mg["bound"]) for x in src)
     ctx.check("R16.3", "source-is-activated[connect[i]]", ok, "source-tensor-not-activated[connect[i]]", c.loc(fn, sk),
               "source = activated[self.connect[&i]]", "skip source is %s" % [short(pretty(x), 60) for x in src])
     # reshape when shapes differ
